@@ -1079,6 +1079,8 @@ class TT():
             index = [index]
         if not isinstance(index, list) and index != None:
             raise InvalidArguments('Invalid index.')
+        if index != None and any([not isinstance(i, (int, np.integer)) or i < 0 or i >= len(self.__N) for i in index]):
+            raise InvalidArguments('Invalid index.')
 
         if index == None:
             # the case we need to sum over all modes
